@@ -683,7 +683,8 @@ fn eval0(g: &G, pos: usize, env: Env, w: &mut World) -> R {
         Empty => Some((pos, Val::U)),
         Custom(k, ok) => {
             let mut p = pos;
-            for _ in 0..*k {
+            // k >= 10: the same parser written with peek() + skip() instead of next()
+            for _ in 0..(*k % 10) {
                 if p < t.len() {
                     w.consume(p);
                     p += 1;
@@ -956,6 +957,40 @@ fn eval0(g: &G, pos: usize, env: Env, w: &mut World) -> R {
             let n = count_of(env.ctx) as u8;
             let bd = Bounds::new(n, Some(n));
             run_sink(&Sink::Vec, pos, env, w, &mut |k, p, w| rep_next(item, &bd, k, p, env, w))
+        }
+        RepCtxPre(item, st, kind) => {
+            let n = count_of(env.ctx) as u8;
+            let (mn, mx) = pre_effective(st, *kind, n);
+            if let Some(m) = mx {
+                if mn > m {
+                    // contradictory effective bounds: the statement gives them no meaning
+                    w.unspecified = true;
+                }
+            }
+            let bd = Bounds::new(mn, mx);
+            run_sink(&Sink::Vec, pos, env, w, &mut |k, p, w| rep_next(item, &bd, k, p, env, w))
+        }
+        IntoIter(a, sink) => {
+            // make_iter runs the parser (also when no item is asked for); the items themselves consume nothing
+            match sink {
+                Sink::Foldl(init) | Sink::FoldlWith(init) => {
+                    // foldl runs its initial parser first, then builds the iterator
+                    let (e0, mut acc) = eval(init, pos, env, w)?;
+                    let (e, v) = eval(a, e0, env, w)?;
+                    for it in items_of(v) {
+                        acc = Val::P(bx(acc), bx(it));
+                        if matches!(sink, Sink::FoldlWith(_)) {
+                            acc = Val::S(pos, e, bx(acc));
+                        }
+                    }
+                    Some((e, acc))
+                }
+                _ => {
+                    let (e, v) = eval(a, pos, env, w)?;
+                    let items = items_of(v);
+                    run_sink(sink, e, env, w, &mut |k, _p, _w| Ok(items.get(k).cloned()))
+                }
+            }
         }
         SepBy(item, sep, bd, lead, trail, sink) => {
             run_sink(sink, pos, env, w, &mut |n, p, w| sep_next(item, sep, bd, *lead, *trail, n, p, env, w))
